@@ -206,3 +206,14 @@ def _canary_used_ignores_free():
 CANARIES = [("free_idx shifts only the entries above idx", _canary_shift_off_by_one),
             ("freed identifier is not moved behind the used part", _canary_freed_not_recycled),
             ("used count decremented only by free, not by free_idx", _canary_used_ignores_free)]
+
+
+def _callers_items():
+    from transactron.lib import PreservedOrderAllocator
+
+    return [("PreservedOrderAllocator(3)", lambda: PreservedOrderAllocator(3), [("alloc", ["alloc"]), ("free", ["free"]), ("free_idx", ["free_idx"])],
+             [("order", ["order"]), ("clear", ["clear"])])]
+
+
+from ..excl import install as _install  # noqa: E402
+_install(globals(), _callers_items())
